@@ -39,6 +39,7 @@ CONF = {
                 big=[("big", 60, 800), ("dag", 300, 3000)], deep=True, liveness=True),
     "C04": dict(prefixes=("C04.",), builds=("pure",),
                 model=[("plain", 400, 4000), ("dag", 300, 3000), ("kinds3", 300, 3000), ("faults", 200, 2500), ("ctx", 150, 1500), ("again", 200, 2000)],
+                monitor_only=[("helpers", 500, 5000)],
                 big=[("big", 80, 1000), ("kinds3", 300, 3000)], enum=True),
     "C05": dict(prefixes=("C05.",), builds=("pure",),
                 model=[("kinds3", 500, 5000), ("faults", 300, 3000), ("sync", 250, 2500), ("spawn", 200, 2000),
